@@ -544,8 +544,60 @@ class _Inliner:
         inner_names = caller_names | set().union(*[_names_in(s) for s in new_body]) if new_body else caller_names
         return prefix + self._block(new_body, inner_names, stack + [fn.name])
 
+    def _hoist(self, st, caller_names, stack):
+        """Calls to multi-statement helpers nested inside the expressions of a simple statement (or an if test) are
+        hoisted into ``tmp = helper(...)`` statements placed before it (evaluation order is irrelevant for shape rules)."""
+        if isinstance(st, (ast.Expr, ast.Assign, ast.AnnAssign, ast.AugAssign, ast.Return)):
+            top = st.value
+            roots = [st.value] if st.value is not None else []
+        elif isinstance(st, ast.If):
+            top = None
+            roots = [st.test]
+        else:
+            return [], st
+        found = []
+        for root in roots:
+            for c in walk_no_nested(root):
+                if isinstance(c, ast.Call) and c is not top:
+                    r = resolve_helper(self.prog, self.cls, self.module, c, self.public)
+                    if r is None or r[0].name in stack or len(stack) >= self.depth:
+                        continue
+                    body = _body_no_doc(r[0])
+                    if len(body) == 1 and isinstance(body[0], ast.Return):
+                        continue        # expression helper, substituted in place
+                    if any(isinstance(n, (ast.Yield, ast.YieldFrom)) for n in walk_no_nested(r[0])):
+                        continue
+                    found.append(c)
+        if not found:
+            return [], st
+        pre = []
+        mapping = {}
+        for c in found:
+            self.counter += 1
+            tmp = f'_h{self.counter}_{call_name(c).strip("_")}'
+            mapping[id(c)] = tmp
+            pre.append(ast.copy_location(ast.Assign(targets=[ast.Name(id=tmp, ctx=ast.Store())], value=c, lineno=st.lineno), st))
+
+        class R(ast.NodeTransformer):
+            def visit_Call(self, n):
+                if id(n) in mapping:
+                    return ast.copy_location(ast.Name(id=mapping[id(n)], ctx=ast.Load()), n)
+                return self.generic_visit(n)
+        st2 = copy.copy(st)
+        if isinstance(st, ast.If):
+            st2.test = R().visit(st.test)
+        else:
+            st2.value = R().visit(st.value)
+        return pre, st2
+
     def _block(self, stmts, caller_names, stack):
         out = []
+        queue = list(stmts)
+        stmts = []
+        for st in queue:
+            pre, st2 = self._hoist(st, caller_names, stack)
+            stmts.extend(pre)
+            stmts.append(st2)
         for st in stmts:
             rep = self._stmt_helper(st, caller_names, stack)
             if rep is not None:
